@@ -48,7 +48,7 @@ def parse_wsm(out, mon):
             mon.ev(int(p[1]))
         elif k == "DISTINCT":
             # wsm counts distinct cells itself (they can be millions); keep the number
-            mon.counters["_distinct"] += int(p[1])
+            mon.extra_distinct += int(p[1])
         elif k == "RULE":
             rule = p[1]
         elif k == "SAMPLE":
@@ -106,12 +106,7 @@ def run(prop, tier, seed):
             pass
         if mod is not None:
             mod.extra(mon, tier, seed)  # e.g. Miri runs, E1 own-key paths
-        distinct = mon.counters.pop("_distinct", 0)
-        # distinct cells are counted inside wsm; represent them as synthetic cells
-        mon.cells = set(range(distinct)) if distinct < 5_000_000 else mon.cells
         extra = {}
-        if distinct >= 5_000_000:
-            extra["distinct_nontrivial"] = int(distinct)
         return common.finish(prop, LEVEL.get(prop, "exploration"), tier, seed, mon, t0, rule or "see DESIGN.md",
                              ASSUME_E2, extra)
     print("unknown property", prop)
@@ -127,6 +122,8 @@ def replay(rp):
         return p.returncode
     if not model_ok():
         return 2
+    if r.get("kind") == "raw":
+        return replay_raw(r)
     mod = importlib.import_module(E1_MODULES[prop])
     mon = mod.replay_any(r) if hasattr(mod, "replay_any") else mod.replay(r["scenario"])
     for v in mon.violations:
@@ -135,3 +132,23 @@ def replay(rp):
     if not mon.violations:
         print("replay: no violation reproduced (%d evaluations)" % mon.evals)
     return 1 if mon.violations else 0
+
+
+def replay_raw(r):
+    """Re-execute recorded executor commands and show the events."""
+    from wsx import Wsx, ExecutorDied
+    w = Wsx()
+    rc = 0
+    try:
+        for c in r["commands"]:
+            w.send_lines([c])
+            ev = w.read_event(c)
+            print(c.replace("\t", " "), "->", ev.status, ev.f)
+            if ev.status == "panic":
+                rc = 1
+    except ExecutorDied as e:
+        print("executor died rc=%s" % e.rc)
+        rc = 1
+    finally:
+        w.close()
+    return rc
